@@ -469,7 +469,8 @@ class ClientSSM(SSM):
             if self.actualWindowSize is None:
                 self.actualWindowSize = apdu.apduWin
             in_window = self.in_window(apdu.apduSeq, self.initialSequenceNumber)
-            self.actualWindowSize = apdu.apduWin
+            if in_window:
+                self.actualWindowSize = apdu.apduWin
 
             # duplicate ack received?
             if not in_window:
@@ -1148,7 +1149,8 @@ class ServerSSM(SSM):
             if self.actualWindowSize is None:
                 self.actualWindowSize = apdu.apduWin
             in_window = self.in_window(apdu.apduSeq, self.initialSequenceNumber)
-            self.actualWindowSize = apdu.apduWin
+            if in_window:
+                self.actualWindowSize = apdu.apduWin
 
             # duplicate ack received?
             if not in_window:
